@@ -13,6 +13,7 @@ import (
 	"sort"
 	"strconv"
 	"strings"
+	"sync"
 	"testing"
 	"testing/synctest"
 	"time"
@@ -98,11 +99,12 @@ type SemCase struct {
 }
 
 type Case struct {
-	Engine string      `json:"engine"` // bucket | store | sil | sem
-	Bucket *BucketCase `json:"bucket,omitempty"`
-	Store  *StoreCase  `json:"store,omitempty"`
-	Sil    *SilCase    `json:"sil,omitempty"`
-	Sem    *SemCase    `json:"sem,omitempty"`
+	Engine  string       `json:"engine"` // bucket | store | sil | sem | silconc
+	Bucket  *BucketCase  `json:"bucket,omitempty"`
+	Store   *StoreCase   `json:"store,omitempty"`
+	Sil     *SilCase     `json:"sil,omitempty"`
+	Sem     *SemCase     `json:"sem,omitempty"`
+	SilConc *SilConcCase `json:"silconc,omitempty"`
 }
 
 type result struct {
@@ -650,7 +652,7 @@ func runSil(t *testing.T, c *Case) *result {
 			t.Fatalf("silence.New: %v", err)
 		}
 		ctx := context.Background()
-		var ids []string         // real uuid of the k-th slot ("" when that op created nothing)
+		var ids []string             // real uuid of the k-th slot ("" when that op created nothing)
 		short := map[string]string{} // uuid -> stable name
 		nameID := func(uuid string) string {
 			if uuid == "" {
@@ -1014,6 +1016,8 @@ func runCase(t *testing.T, c *Case) *result {
 		return runSil(t, c)
 	case "sem":
 		return runSem(t, c)
+	case "silconc":
+		return runSilConc(t, c)
 	}
 	t.Fatalf("unknown engine %q", c.Engine)
 	return nil
@@ -1059,10 +1063,29 @@ func TestCheck(t *testing.T) {
 		for i, n := 0, env.N(200, 10); i < n; i++ {
 			cases = append(cases, Case{Engine: "sem", Sem: genSem(r.Fork(), pick(16, 40))})
 		}
+		for i, n := 0, env.N(12, 4); i < n; i++ {
+			cases = append(cases, Case{Engine: "silconc", SilConc: genSilConc(r.Fork(), i)})
+		}
 	}
+	// the concurrent rounds run in real time (bounded barrier waits): all of them at once, before the rest
+	pre := make([]*result, len(cases))
+	var wg sync.WaitGroup
+	for i := range cases {
+		if cases[i].Engine == "silconc" {
+			wg.Add(1)
+			go func() {
+				defer wg.Done()
+				pre[i] = runSilConc(t, &cases[i])
+			}()
+		}
+	}
+	wg.Wait()
 	for i := range cases {
 		c := &cases[i]
-		res := runCase(t, c)
+		res := pre[i]
+		if res == nil {
+			res = runCase(t, c)
+		}
 		run.Add(res.term, c, res.nontrivial)
 		for _, v := range res.viol {
 			run.Violate(v.Key, v.What, v.Case)
@@ -1075,7 +1098,7 @@ func TestCheck(t *testing.T) {
 			}
 		}
 	}
-	if err := run.Finish("four engines: (bucket) Upsert/IsStale sequences on limit.Bucket compared through the value->priority map (layout-free), heap order and index coherence of the real array by direct oracle; (store) Put/heartbeat/expiry/GC-tick histories on provider/mem.Alerts with per-name limit 0..4 under synctest; (sil) create/edit/expire/GC bursts on silence.Silences around MaxSilences/MaxSilenceSizeBytes; (sem) GET/POST arrival/completion sequences through api limitHandler. non-trivial = bucket: an eviction, a refusal or a last-slot-not-latest IsStale; store: a limited Put and a GC tick; sil: a count or size refusal; sem: a 503 and a completion. distinct by full history text"); err != nil {
+	if err := run.Finish("five engines: (bucket) Upsert/IsStale sequences on limit.Bucket compared through the value->priority map (layout-free), heap order and index coherence of the real array by direct oracle; (store) Put/heartbeat/expiry/GC-tick histories on provider/mem.Alerts with per-name limit 0..4 under synctest; (sil) create/edit/expire/GC bursts on silence.Silences around MaxSilences/MaxSilenceSizeBytes; (sem) GET/POST arrival/completion sequences through api limitHandler; (silconc) K concurrent creates on limit-minus-free stored silences through Silences.Set / POST /api/v2/silences with the MaxSilences callback as a bounded rendezvous, and free-running. non-trivial = bucket: an eviction, a refusal or a last-slot-not-latest IsStale; store: a limited Put and a GC tick; sil: a count or size refusal; sem: a 503 and a completion; silconc: a count refusal. distinct by full history text"); err != nil {
 		t.Fatal(err)
 	}
 }
